@@ -296,7 +296,7 @@ func ErrorKind(text string) string {
 		return "not-array"
 	case strings.Contains(t, "invalid type for argument"):
 		return "arg-type"
-	case strings.Contains(t, "divide by zero"):
+	case strings.Contains(t, "division by zero"):
 		return "div-zero"
 	case strings.Contains(t, "range step"):
 		return "range-step"
